@@ -268,15 +268,15 @@ var c07Prevs = []string{"", "flip0", "flipL", "nil", "short", "grand"}
 
 func c07Configs(thorough bool) []c07Config {
 	if !thorough {
-		return []c07Config{{N: 4, MaxH: 3, OffsA: []int64{-1, 0, 1, 10}, OffsB: []int64{0, 1, 10},
+		return []c07Config{{N: 4, MaxH: 3, OffsA: []int64{-1, 0, 1, 10}, OffsB: []int64{1, 10},
 			DHs: []int64{0, -1, 1}, Vers: []int{2, 1, 3}, Prevs: c07Prevs}}
 	}
 	dhs := []int64{0, -1, 1, 2}
 	vers := []int{2, 1, 3}
 	return []c07Config{
-		{N: 4, MaxH: 4, OffsA: []int64{-1, 0, 1, 2, 10}, OffsB: []int64{-1, 0, 1, 10}, DHs: dhs, Vers: []int{2, 0, 1, 3}, Prevs: c07Prevs},
+		{N: 4, MaxH: 3, OffsA: []int64{-1, 0, 1, 2, 10}, OffsB: []int64{-1, 0, 1, 10}, DHs: dhs, Vers: []int{2, 0, 1, 3}, Prevs: c07Prevs},
 		{N: 5, MaxH: 3, OffsA: []int64{-1, 0, 1, 2, 10}, OffsB: []int64{0, 1, 10}, DHs: dhs, Vers: vers, Prevs: c07Prevs},
-		{N: 6, MaxH: 3, OffsA: []int64{-1, 0, 1, 10}, OffsB: []int64{1, 10}, DHs: dhs, Vers: vers, Prevs: c07Prevs},
+		{N: 6, MaxH: 2, OffsA: []int64{-1, 0, 1, 10}, OffsB: []int64{1, 10}, DHs: dhs, Vers: vers, Prevs: c07Prevs},
 		{N: 7, MaxH: 2, OffsA: []int64{0, 1, 10}, OffsB: []int64{1}, DHs: dhs, Vers: vers, Prevs: c07Prevs},
 	}
 }
